@@ -794,6 +794,22 @@ func realDigest(r *rng, n int, sw *sweep) {
 				}
 			}
 		}
+		// one signer object, two different messages: the first signature is still the first
+		// message's after the second was issued (no shared output buffer)
+		{
+			c1, c2 := append([]byte("first "), content...), append([]byte("second "), content...)
+			a1, ea := s.Sign(rand.Reader, c1)
+			keep := append([]byte(nil), a1...)
+			a2, eb := s.Sign(rand.Reader, c2)
+			d3, ec := ds.SignDigest(rand.Reader, hashFor(alg, c2))
+			if ea != nil || eb != nil || ec != nil {
+				sw.fail("digest", desc, "signing failed")
+			} else if !bytes.Equal(a1, keep) {
+				sw.fail("digest", desc, "a signature returned earlier was overwritten by a later call on the same signer")
+			} else if v.Verify(c1, a1) != nil || v.Verify(c2, a2) != nil || v.Verify(c2, d3) != nil || !stdVerify(k, c1, a1) {
+				sw.fail("digest", desc, "signatures over two messages from one signer object do not both verify")
+			}
+		}
 		if k.name == "ecdsa" {
 			nb := (k.pub.(*ecdsa.PublicKey).Curve.Params().N.BitLen() + 7) / 8
 			if len(sig1) != 2*nb || len(sig2) != 2*nb {
